@@ -48,11 +48,14 @@ def plan_st(draw, tier):
         sizes.append(s)
         rest -= s
     first_partial = draw(st.integers(0, 3)) == 0
+    # the chunk-trained twin may answer a query between two chunks (C10 says this changes nothing; a cache filled
+    # by such a query must not hide the rows of later chunks)
+    mid_queries = [draw(st.booleans()) for _ in sizes]
     queries = []
     for _ in range(draw(st.integers(1, 3))):
         queries.append(h.queries())
     return {"config": cfg, "decisions": dec, "rewards": rew, "contexts": ctxs, "sizes": sizes,
-            "first_partial": first_partial, "queries": queries, "family": h.family}
+            "first_partial": first_partial, "queries": queries, "family": h.family, "mid_queries": mid_queries}
 
 
 def strategy(tier, ctx):
@@ -70,6 +73,9 @@ def evaluate(plan, ctx):
     for i, s in enumerate(plan["sizes"]):
         name = "fit" if (i == 0 and not plan["first_partial"]) else "partial_fit"
         chunk_ops.append([name, dec[pos:pos + s], rew[pos:pos + s], cx[pos:pos + s] if cx is not None else None])
+        if plan.get("mid_queries") and plan["mid_queries"][i] and i + 1 < len(plan["sizes"]):
+            chunk_ops.append(["predict_expectations", plan["queries"][0]])
+            chunk_ops.append(["predict", plan["queries"][-1]])
         pos += s
     twin.must_succeed(b, chunk_ops, "chunked training")
     mode = streams.align(a, b)
